@@ -14,5 +14,7 @@ func main() {
 		fmt.Println(synth.Cached(i%3).Work())
 	}
 	fmt.Println(synth.Parallel(6))
+	fmt.Println(synth.Channels(4))
+	fmt.Println(synth.Channels(3))
 	fmt.Println(synth.Summary())
 }
